@@ -468,9 +468,21 @@ func (x *Exec) step(st *State, fr *Frame, instr ssa.Instruction) {
 			return
 		}
 		x.nilCheck(st, fr, p, in)
-		stt := in.X.Type().Underlying().(*types.Pointer).Elem().Underlying().(*types.Struct)
+		pointee := in.X.Type().Underlying().(*types.Pointer).Elem()
+		stt := pointee.Underlying().(*types.Struct)
+		fi := in.Field
+		if d := x.w.DTByName(x.w.SortOf(pointee)); d != nil {
+			fi = d.GoField(in.Field)
+		}
+		if fi < 0 {
+			// unexported field of a library struct: not modelled
+			c := st.newCell("hidden", stt.Field(in.Field).Type(), nil)
+			st.cells[c] = x.symVal(st, "hidden", stt.Field(in.Field).Type())
+			fr.vals[in] = PtrV{Cell: c, Elem: stt.Field(in.Field).Type()}
+			return
+		}
 		np := p
-		np.Path = append(append([]PathEl(nil), p.Path...), PathEl{Field: in.Field})
+		np.Path = append(append([]PathEl(nil), p.Path...), PathEl{Field: fi})
 		np.Elem = stt.Field(in.Field).Type()
 		fr.vals[in] = np
 	case *ssa.Field:
@@ -481,7 +493,12 @@ func (x *Exec) step(st *State, fr *Frame, instr ssa.Instruction) {
 			fr.vals[in] = x.symVal(st, "field", in.Type())
 			return
 		}
-		fr.vals[in] = x.fromTV(st, TV{d.Fields[in.Field].Sort, d.Get(in.Field, tv.E)}, in.Type())
+		fi := d.GoField(in.Field)
+		if fi < 0 {
+			fr.vals[in] = x.symVal(st, "hidden", in.Type())
+			return
+		}
+		fr.vals[in] = x.fromTV(st, TV{d.Fields[fi].Sort, d.Get(fi, tv.E)}, in.Type())
 	case *ssa.IndexAddr:
 		fr.vals[in] = x.indexAddr(st, fr, in)
 	case *ssa.Index:
@@ -742,8 +759,7 @@ func (x *Exec) convert(st *State, fr *Frame, in *ssa.Convert) Val {
 		return TV{s, e}
 	}
 	if okf && tstr {
-		r := st.fresh("runestr", SSeqI)
-		st.assume(app("g_isbytes", r))
+		r := x.freshBytes(st, "runestr")
 		return TV{SSeqI, r}
 	}
 	if p, ok := v.(PtrV); ok {
